@@ -211,3 +211,9 @@ func verifReadTempFile(p string) (string, bool) {
 }
 
 func verifEffectFailed(i int) bool { return false }
+
+// specIsGoReserved: s is a Go keyword or a predeclared (universe scope) identifier —
+// computed from go/token and go/types, not from jennifer's own list.
+func specIsGoReserved(s string) bool {
+	return gotoken.IsKeyword(s) || types.Universe.Lookup(s) != nil
+}
